@@ -67,12 +67,22 @@ type FuncContract struct {
 	Cuts     map[int]*CutSpec
 	NamedCuts []*CutSpec
 	Secret   []SpecExpr
+	ElemInv  []ElemInvSpec // element invariants of long arrays (elem-invariant clauses)
 	CT       *CTSpec // secrecy clause (ct.go)
 	CTOnly   bool    // the block carries only a ct clause: no functional verification of the body
 	Public   []SpecExpr
 	Ghost    []string
 	Line     string
 	Lemmas   []string
+}
+
+// ElemInvSpec: `elem-invariant <array lvalue> : <predicate over elem>`. Every element of the array
+// satisfies the predicate whenever control is in the function (and at entry/exit if the array
+// belongs to a parameter): assumed when an element is addressed, proved after every write to an
+// element (store instruction or callee modifies clause). No quantifier is involved.
+type ElemInvSpec struct {
+	Arr  SpecExpr
+	Pred SpecExpr
 }
 
 type AxiomDecl struct {
@@ -395,6 +405,20 @@ func ParseContracts(file, pkg string, configOK func(pred string) bool) (*PkgCont
 			cur.HavocGlobals = append(cur.HavocGlobals, fieldsComma(rest)...)
 		case kw == "assumed":
 			cur.Assumed = true
+		case kw == "elem-invariant":
+			i := strings.Index(rest, ":")
+			if i < 0 {
+				return nil, fmt.Errorf("%s: bad elem-invariant clause", line)
+			}
+			a, err := parseSpecExpr(strings.TrimSpace(rest[:i]), line)
+			if err != nil {
+				return nil, err
+			}
+			pr, err := parseSpecExpr(strings.TrimSpace(rest[i+1:]), line)
+			if err != nil {
+				return nil, err
+			}
+			cur.ElemInv = append(cur.ElemInv, ElemInvSpec{Arr: a, Pred: pr})
 		case kw == "ct":
 			c, err := parseCTClause(rest)
 			if err != nil {
